@@ -18,6 +18,9 @@ real bytes; the real bytes travel in `meta` and are what the implementation side
   url     : the real `Renderable.url` property (where the saved target location comes from) on ONE node object through 1-3
             successive renders whose file tables / base urls differ; property: the answer in each render is the answer
             that render gives on its own (nothing is carried from one render to the next)
+  dirs    : the real `Compile.parse` of a document in a working directory with 0-2 paux directories, each holding .paux
+            files of other documents (same base names in several directories, the job's own name among them);
+            property: no exception, every label of every file that is not named like the job is restored, nothing else
   raw     : files whose loaded value has no shape in the model (aliasing, exotic keys, surrogates): property only
 Every real call happens while another, long-lived context of the same process holds labels of its own (a build script
 converting several documents): none of them may appear in what is saved or restored ("the same set": the third driver
@@ -41,7 +44,8 @@ LEVEL_TEXT = ('Lean 4 theorems over a line-by-line model of Context.persist/rest
               'set: no label that the run did not save and the old file did not hold), and for the xr package (second reader of the file) '
               'xr_unreadable_is_noop, xrR_roundtrip, xrR_invents_nothing, xr_roundtrip_partial with the kernel-checked counterexample '
               'xr_mixes_renderers_counterexample (known finding), and for the source of the saved target (Renderable.url) target_is_of_this_render, '
-              'target_names_a_file_of_this_render, enclosingFile_mem. The attribute tables (refAttributes, remap, setters, '
+              'target_names_a_file_of_this_render, enclosingFile_mem, and for the files another run reads (Compile.parse) parse_total, '
+              'parse_restores_every_other_file, parse_invents_nothing. The attribute tables (refAttributes, remap, setters, '
               'read-only names) are regenerated from the live classes on every run; the model is tied to the code by differential execution '
               'on real files: every truncation point of every generated file, random 1-8 bit flips, foreign pickles of every value shape, '
               'empty/missing files and save/damage/restore histories across renderers. Template lookup of the restored node (\\ref -> href) '
@@ -337,6 +341,12 @@ def gen_node(rng, label, malformed):
     a['ref'] = ('node', num) if rng.random() < 0.85 else rng.choice([('none',), ('val', num), ('val', rng.randint(0, 9))])
     a['title'] = ('node', ' '.join(rng.sample(WORDS, rng.randint(1, 3)))) if rng.random() < 0.6 else ('none',)
     a['captionName'] = ('node', rng.choice(['Section', 'Equation', 'Figure', 'Table', ''])) if rng.random() < 0.5 else ('none',)
+    r = rng.random()
+    if r < 0.15:
+        # an unnumbered sectioning command: no number, and the caption name is the empty text node of the getter's fallback
+        a['ref'], a['captionName'] = ('none',), ('text', '')
+    elif r < 0.22:
+        a[rng.choice(['title', 'captionName', 'ref'])] = ('text', rng.choice(['', 'Bare text', 'é', '7']))
     a['id'] = ('val', label if rng.random() < 0.8 else 'a%010d' % rng.randrange(10 ** 6))
     fn = rng.choice(['index.html', 'sect0001.html', 'sec-intro.html', 'a b.html', 'résumé.html'])
     a['url'] = ('val', fn + ('#' + a['id'][1] if rng.random() < 0.6 else '')) if rng.random() < 0.9 else ('none',)
@@ -365,6 +375,7 @@ def gen_src(rng, nmax=5, p_malformed=0.15):
 def sval_words(sv):
     if sv[0] == 'none': return '-'
     if sv[0] == 'node': return 'n' + cps(sv[1])
+    if sv[0] == 'text': return 't' + cps(sv[1])
     return shape(sv[1])
 
 
@@ -435,6 +446,13 @@ def install_src(ctx, src):
         n = Labelled()
         for name, sv in node.items():
             if sv[0] == 'none': continue
+            if sv[0] == 'text':
+                # a real bare DOM text node (what the captionName getter leaves on a node that has none)
+                if 'textdoc' not in _env:
+                    from plasTeX import TeXDocument
+                    _env['textdoc'] = TeXDocument()
+                setattr(n, name, _env['textdoc'].createTextNode(sv[1]))
+                continue
             setattr(n, name, Rendered(sv[1]) if sv[0] == 'node' else sv[1])
         ctx.persistentLabels[k] = n
 
@@ -849,6 +867,8 @@ def generate(ctx):
         yield from gen_history(rng)
     for _ in range(400 if quick else 4000):
         yield gen_url_case(rng)
+    for _ in range(300 if quick else 3000):
+        yield gen_dirs_case(rng)
 
 
 def _plain(v):
@@ -876,6 +896,12 @@ def corpus():
     out += mk_cases(['xrrt'], 'HTML5', src, _plain({'HTML5': {'x': 5}, 'XHTML': 7}), 'corpus', 'D29', xr=('P-', 'http://x.org/m/'))
     out.append(url_case('eq:1', None, [[None, None, [None, 'sec-a.html', 'index.html']], [None, None, [None, 'sec-a.txt', 'index.txt']]], 'corpus'))
     out.append(url_case('eq:1', None, [['http://x.org/d/', None, ['index.html']], ['', 'eq-1.html', ['index.html']], [None, '', []]], 'corpus'))
+    # two different main.paux in two paux directories, and the job's own file
+    sA = src_json([('a', {'ref': ('node', '2'), 'title': ('node', 'Methods'), 'id': ('val', 'a'), 'url': ('val', 'sec-methods.html')})])
+    sB = src_json([('b', {'ref': ('node', '3'), 'title': ('node', 'Results'), 'id': ('val', 'b'), 'url': ('val', 'sec-results.html')})])
+    sO = src_json([('own', {'ref': ('node', '1'), 'id': ('val', 'own')})])
+    out.append(dirs_case('HTML5', 'report', [[['report', 'W', sO]], [['main', 'W', sA]], [['main', 'W', sB]]], 'corpus'))
+    out.append(dirs_case('HTML5', 'report', [[['main', 'W', sA]], [['report', 'W', sO], ['main', 'W', sB]]], 'corpus'))
     import glob
     from framework import VERIF
     for f in sorted(glob.glob(os.path.join(VERIF, 'corpus', ID, '*.json'))):
@@ -955,6 +981,95 @@ def real_urls(nid, ov, views):
     return out
 
 
+# ---------------------------------------------------------------- `dirs` stream: which files Compile.parse restores
+
+DIR_NAMES = ['main', 'index', 'a', 'report', 'doc.v2']
+
+
+class _At:
+    def __init__(self, path): self.path = path
+
+
+def gen_dirs_case(rng, origin='gen'):
+    """the working directory and 0-2 paux directories, each holding .paux files of other documents (the same base name
+    often occurs in several directories, and the job's own name too); every file written by a real save (labels of
+    its own) or damaged / foreign"""
+    r = rng.choice(RENDERERS[:2])
+    job = rng.choice(DIR_NAMES)
+    dirs, idx = [], 0
+    for _ in range(1 + rng.choice([0, 1, 2, 2])):
+        files, raw_used = [], False
+        for name in rng.sample(DIR_NAMES, rng.choice([0, 1, 1, 2, 3])):
+            if rng.random() < 0.8 or raw_used:
+                src = [('f%d:%s' % (idx, k), node) for k, node in gen_src(rng, 2, 0.05)]
+                for k, node in src:
+                    if node.get('id', ('none',))[0] == 'val' and isinstance(node['id'][1], str) and node['id'][1]:
+                        node['id'] = ('val', k)
+                files.append([name, 'W', src_json(src)])
+            else:
+                raw_used = True
+                data = rng.choice([gen_foreign(rng), gen_foreign(rng), b'', rng.choice(GARBAGE), flip(rng, base_file(rng, 1)[0])])
+                files.append([name, 'R', b64(data)])
+            idx += 1
+        dirs.append(files)
+    return dirs_case(r, job, dirs, origin)
+
+
+def dirs_case(r, job, dirs, origin='gen'):
+    words = [cps(r), cps(job)]
+    try:
+        for files in dirs:
+            for name, kind, payload in files:
+                words += ['F', cps(name)]
+                words.append('W ' + src_words(src_unjson(payload)) if kind == 'W' else file_words(unb64(payload)))
+    except Exotic:
+        return Case('raw', 'x dirs', {'op': 'dirs', 'r': r, 'job': job, 'dirs': dirs}, origin)
+    return Case('dirs', ' '.join(words), {'r': r, 'job': job, 'dirs': dirs}, origin)
+
+
+def real_parse_dirs(r, job, dirs):
+    """the real `Compile.parse` of a document `job`.tex in the first directory with the others as paux-dirs;
+    returns (exception or None, context.labels)"""
+    from plasTeX.Compile import parse
+    from plasTeX.Config import defaultConfig
+    top = tempfile.mkdtemp(prefix='c20dirs-')
+    cwd = os.getcwd()
+    ctx = None
+    try:
+        paths = []
+        for i, files in enumerate(dirs):
+            d = os.path.join(top, 'd%d' % i)
+            os.makedirs(d)
+            paths.append(d)
+            for name, kind, payload in files:
+                fp = os.path.join(d, name + '.paux')
+                if kind == 'W':
+                    e = real_persist(_At(fp), r, src_unjson(payload))
+                    if e is not None:
+                        return e, {}
+                else:
+                    open(fp, 'wb').write(unb64(payload))
+        open(os.path.join(paths[0], job + '.tex'), 'w').write('x')
+        decoy_context()
+        config = defaultConfig()
+        config['general']['renderer'] = r
+        config['general']['paux-dirs'] = paths[1:]
+        config['files']['log'] = False
+        os.chdir(paths[0])
+        with guarded():
+            try:
+                tex = parse(job + '.tex', config)
+                ctx = tex.ownerDocument.context
+            except Exception as e:
+                return e, {}
+        return None, dict(ctx.labels)
+    finally:
+        os.chdir(cwd)
+        if ctx is not None:
+            forget(ctx)
+        shutil.rmtree(top, ignore_errors=True)
+
+
 def run_hist(sb, meta):
     """re-run a history on the real code; returns 'err:…' as soon as a step raises, else None"""
     sb.put(unb64(meta['file']))
@@ -972,6 +1087,12 @@ def impl(case, aux):
     sb = sandbox()
     m = case.meta
     stream = m.get('op') if case.stream == 'raw' else case.stream
+    if stream == 'dirs':
+        try:
+            e, labels = real_parse_dirs(m['r'], m['job'], m['dirs'])
+            return canon_exc(e) if e is not None else 'ok ' + labels_words(labels)
+        except Exotic:
+            return 'ok exotic'
     if stream == 'url':
         try:
             us = real_urls(m['id'], m['ov'], m['views'])
@@ -1072,6 +1193,16 @@ def judge(o):
         o.corr_ok = (o.impl == o.model)
         o.prop_ok = (o.impl == o.spec)
         o.note = '' if o.prop_ok else 'the target a node gives in one render differs from what it gives when that render is the only one'
+        return
+    if s == 'dirs':
+        # the order in which glob lists the files of one directory is the file system's: compare as dictionaries
+        try:
+            o.corr_ok = o.impl == o.model or (o.impl.startswith('ok ') and o.model.startswith('ok ') and o.impl != 'ok exotic'
+                                              and words_value(o.impl[3:]) == words_value(o.model[3:]))
+        except Exception:
+            o.corr_ok = False
+        why = prop_holds(s, o.impl, o.spec, o.case.meta['r'], allowed_keys(o.aux))
+        o.prop_ok, o.note = not why, why
         return
     o.corr_ok = (o.impl == o.model)
     why = prop_holds(s, o.impl, o.spec, o.case.meta['r'], allowed_keys(o.aux))
@@ -1235,12 +1366,7 @@ def doc_scenario(sc):
     fails = []
     d = tempfile.mkdtemp(prefix='c20doc-')
     try:
-        body = []
-        for kind, lab, title in sc['labels']:
-            if kind == 'section': body.append('\\section{%s}\\label{%s}\nText.' % (title, lab))
-            elif kind == 'subsection': body.append('\\subsection{%s}\\label{%s}\nText.' % (title, lab))
-            elif kind == 'equation': body.append('\\begin{equation}x=1\\label{%s}\\end{equation}' % lab)
-            else: body.append('\\begin{figure}\\caption{%s}\\label{%s}\\end{figure}' % (title, lab))
+        body = [_label_tex(kind, lab, title) for kind, lab, title in sc['labels']]
         open(os.path.join(d, A + '.tex'), 'w').write('\\documentclass{article}\n\\begin{document}\n%s\n\\end{document}\n' % '\n'.join(body))
         # B has a label of its own and refers to every label of A: through the .paux files of the directory (Compile.parse),
         # or, when sc['xr'], through the xr package (\\externaldocument[X-]{A}, labels prefixed)
@@ -1248,7 +1374,7 @@ def doc_scenario(sc):
         xr = bool(sc.get('xr'))
         open(os.path.join(d, B + '.tex'), 'w').write('\\documentclass{article}\n%s\\begin{document}\n\\section{Other}\\label{%s}\n%s\n\\end{document}\n' % (
             '\\usepackage{xr}\n\\externaldocument[X-]{%s}\n' % A if xr else '', OWN,
-            '\n'.join('R(\\ref{%s%s})' % ('X-' if xr else '', lab) for _, lab, _ in sc['labels'])))
+            '\n'.join('R(\\ref{%s%s})' % ('X-' if xr else '', lab) for k, lab, _ in sc['labels'] if k not in UNNUMBERED)))
         paux = os.path.join(d, A + '.paux')
         labs = [lab for _, lab, _ in sc['labels']]
 
@@ -1291,7 +1417,7 @@ def doc_scenario(sc):
             except Exception as e:
                 fails.append('%s: no output of b.tex (%r)' % (when, e)); return
             got = re.findall(r'R\(<a href="([^"]*)">(.*?)</a>\)', out, re.S)
-            want = [(v[r][l].get('url'), v[r][l].get('ref')) for l in labs]
+            want = [(v[r][l].get('url'), v[r][l].get('ref')) for k_, l, _ in sc['labels'] if k_ not in UNNUMBERED]
             got = [(htmlmod.unescape(a), b) for a, b in got]
             if got != want:
                 fails.append('%s: references of b.tex under %s resolve to %r, saved labels say %r' % (when, r, got[:6], want[:6]))
@@ -1335,7 +1461,7 @@ def doc_scenario(sc):
 def gen_doc_scenario(rng):
     labels, used = [], set()
     for _ in range(rng.randint(1, 5)):
-        kind = rng.choice(['section', 'subsection', 'equation', 'figure'])
+        kind = rng.choice(DOC_KINDS)
         lab = rng.choice(['sec', 'eq', 'fig']) + rng.choice([':', '-']) + rng.choice(['intro', 'one', 'main', 'a', 'b2', 'xy'])
         if lab in used: continue
         used.add(lab)
@@ -1356,13 +1482,20 @@ def gen_doc_scenario(rng):
 MULTI_RENDERERS = ['HTML5', 'XHTML', 'Text', 'DocBook', 'HTML5']
 
 
+UNNUMBERED = ('subsubsection', 'paragraph', 'subparagraph')   # below the default sec-num-depth (2): the labelled node has no number and no caption name
+DOC_KINDS = ['section', 'subsection', 'subsubsection', 'paragraph', 'subparagraph', 'equation', 'figure']
+
+
+def _label_tex(kind, lab, title):
+    if kind in ('section', 'subsection', 'subsubsection', 'paragraph', 'subparagraph'):
+        return '\\%s{%s}\\label{%s}\nText.' % (kind, title, lab)
+    if kind == 'equation':
+        return '\\begin{equation}x=1\\label{%s}\\end{equation}' % lab
+    return '\\begin{figure}\\caption{%s}\\label{%s}\\end{figure}' % (title, lab)
+
+
 def _doc_source(labels):
-    body = []
-    for kind, lab, title in labels:
-        if kind == 'section': body.append('\\section{%s}\\label{%s}\nText.' % (title, lab))
-        elif kind == 'subsection': body.append('\\subsection{%s}\\label{%s}\nText.' % (title, lab))
-        elif kind == 'equation': body.append('\\begin{equation}x=1\\label{%s}\\end{equation}' % lab)
-        else: body.append('\\begin{figure}\\caption{%s}\\label{%s}\\end{figure}' % (title, lab))
+    body = [_label_tex(kind, lab, title) for kind, lab, title in labels]
     return '\\documentclass{article}\n\\begin{document}\n%s\n\\end{document}\n' % '\n'.join(body)
 
 
@@ -1444,7 +1577,7 @@ def multi_scenario(sc):
 def gen_multi_scenario(rng):
     labels, used = [], set()
     for _ in range(rng.randint(2, 6)):
-        kind = rng.choice(['section', 'subsection', 'equation', 'equation', 'figure'])
+        kind = rng.choice(DOC_KINDS + ['equation'])
         lab = rng.choice(['sec', 'eq', 'fig']) + rng.choice([':', '-']) + rng.choice(['intro', 'one', 'main', 'a', 'b2', 'xy'])
         if lab in used: continue
         used.add(lab)
